@@ -874,10 +874,33 @@ Definition pending_ok (s : state) : bool :=
                     else true) (st_auctions s).
 Definition c08_all (t : trans) : bool := c08_ok t && pending_ok (t_post t).
 
+(* C19, vesting side: whatever leaves the vesting escrow of an auction in a block is that auction's OWN due
+   instalments, paid to its own auctioneer - never an instalment recorded for another auction (the release clause of
+   c09_ok, read as a statement about isolation) *)
+Definition c19_release_own (t : trans) : bool :=
+  forallb (fun p =>
+       let a := fst p in
+       let id := a_id a in
+       if status_eqb (a_status a) VestingS then
+         let before := vqs_of (t_pre t) id in
+         let after := vqs_of (t_post t) id in
+         let due := if is_block (t_op t) && oclass_eqb (t_class t) KBlockOk
+                    then filter (fun v => negb (v_released v) && (v_time v <=? block_time (t_op t))) before else [] in
+         (length before =? length after)%nat
+         && forallb (fun pr => let v := fst pr in let v' := snd pr in
+               vq_eqb (set_v_released v (v_released v || existsb (fun x => v_time x =? v_time v) due)) v')
+             (combine before after)
+         && zeqb_list (map x_amt (filter (fun x => addr_eqb (x_from x) (Escrow Vesting id)) (t_xfers t)))
+                      (filter (fun z => negb (z =? 0)) (map v_amt due))
+         && forallb (fun x => negb (addr_eqb (x_from x) (Escrow Vesting id))
+                              || (addr_eqb (x_to x) (User (a_auctioneer a)) && N.eqb (x_denom x) (a_pay_denom a))) (t_xfers t)
+       else true) (paired t).
+Definition c19_all (t : trans) : bool := c19_ok t && c19_release_own t.
+
 (* ---------------------------------------------------------------- all of them *)
 Definition all_checks : list (N * (trans -> bool)) :=
   [(1%N, c01_all); (2%N, c02_all); (3%N, c03_ok); (4%N, c04_all); (5%N, c05_all); (6%N, c06_ok); (7%N, c07_ok);
    (8%N, c08_all); (9%N, c09_all); (10%N, c10_ok); (11%N, c11_ok); (12%N, c12_ok); (13%N, c13_all);
-   (15%N, c15_ok); (16%N, c16_ok); (17%N, c17_ok); (18%N, c18_ok); (19%N, c19_ok)].
+   (15%N, c15_ok); (16%N, c16_ok); (17%N, c17_ok); (18%N, c18_ok); (19%N, c19_all)].
 Definition failing (t : trans) : list N :=
   map fst (filter (fun c => negb (snd c t)) all_checks).
